@@ -34,22 +34,9 @@ func (h *EventHandler) OnAdd(obj any, _ bool) {
 		return
 	}
 
-	h.lock.Lock()
-	defer h.lock.Unlock()
-
-	var changed bool
-	for _, sub := range endpoints.Subsets {
-		for _, point := range sub.Addresses {
-			if _, ok := h.endpoints[point.IP]; !ok {
-				h.endpoints[point.IP] = lang.Placeholder
-				changed = true
-			}
-		}
-	}
-
-	if changed {
-		h.notify()
-	}
+	// the informer watches a single endpoints object, the added object carries all its
+	// addresses, addresses that are gone since the last Update must not be kept.
+	h.Update(endpoints)
 }
 
 // OnDelete handles the endpoints delete events.
